@@ -44,16 +44,24 @@ def plan(tier, seed):
     return specs
 
 
+def frozen_api():
+    import json
+    here = os.path.dirname(os.path.dirname(os.path.abspath(__file__)))
+    with open(os.path.join(here, 'data', 'api_names.json')) as fh:
+        return [n.encode('latin-1') for n in json.load(fh)['names']]
+
+
 def reserved_sets():
     from pico8.lua import lua
-    api = set(lua.PICO8_BUILTINS) | set(CORE_API)
+    # shipped list (so that names added later are honoured) + the frozen copy of the pinned list + the core
+    api = set(lua.PICO8_BUILTINS) | set(CORE_API) | set(frozen_api())
     return set(reflex.KEYWORDS), api
 
 
 def check_mapping(ctx, pairs, config, keep, case):
     """The offline deciding monitor.  pairs: [(in_name, out_name)] in order of occurrence."""
     kws, api = reserved_sets()
-    keepset = set(keep) if config == 'keep_file' else set()
+    keepset = set(keep) if 'keep_file' in config else set()
     fwd = {}
     back = {}
     ctx.monitor('identifier_occurrences', len(pairs))
@@ -70,7 +78,7 @@ def check_mapping(ctx, pairs, config, keep, case):
     ctx.monitor('mappings_checked')
     ctx.monitor('distinct_identifiers', len(fwd))
     for a, b in fwd.items():
-        must_keep = config == 'keep_all' or a in kws or a in api or a in keepset
+        must_keep = config.startswith('keep_all') or a in kws or a in api or a in keepset
         if must_keep and a != b:
             ctx.violation('reserved/kept name %r was renamed to %r (config %s)' % (a, b, config), case)
             return False
@@ -95,7 +103,7 @@ def run_one(ctx, src, scopes, config, keep, workdir, cli=False):
     ctx.case((src, config, tuple(keep)), nontrivial=len(names_in) >= 3)
     ctx.feature('config:' + config)
     keep_file = None
-    if config == 'keep_file':
+    if 'keep_file' in config:
         keep_file = os.path.join(workdir, 'keep.txt')
         minify.write_keep_file(keep_file, keep, ctx.rng)
         for n in (b'a', b'b', b'ba'):
@@ -120,8 +128,8 @@ def run_one(ctx, src, scopes, config, keep, workdir, cli=False):
         p1 = os.path.join(workdir, 'n.p8')
         with open(p1, 'wb') as fh:
             fh.write(rc.write_p8(regions, src, version=8))
-        argv = ['-q', 'luamin'] + (['--keep-all-names'] if config == 'keep_all' else
-                                   ['--keep-names-from-file', keep_file] if config == 'keep_file' else []) + [p1]
+        argv = ['-q', 'luamin'] + (['--keep-all-names'] if config.startswith('keep_all') else []) + (
+            ['--keep-names-from-file', keep_file] if 'keep_file' in config else []) + [p1]
         try:
             rcode = tool.main(argv)
             got = rc.read_p8(open(os.path.join(workdir, 'n_fmt.p8'), 'rb').read())['code']
@@ -219,6 +227,11 @@ def run_shard(spec, ctx):
                 if small:
                     # tiny pools force collisions between would-be generated names and input names
                     opts['names_extra'] = rng.sample([b'a', b'b', b'c', b'd', b'ba', b'bb', b'x', b'print', b't', b'\x8e', b'if_', b'e'], 6)
+                elif rng.random() < 0.5:
+                    # every API name gets used in programs over a run (frozen list of the pinned tree)
+                    api = [n for n in frozen_api() if n != b'?']
+                    opts['names_extra'] = rng.sample(api, 12) + [b'x', b'y', b'foo', b'bar', b'q1', b'obj']
+                    ctx.feature('api_names_in_program')
                 p = progen.gen_program(rng, opts)
                 if 'StatLabel' in p.feats and rng.random() < 0.35:
                     # Lua 5.2 also allows blanks inside the colons (`:: name ::`); the token minifier must rename such a
@@ -243,7 +256,7 @@ def run_shard(spec, ctx):
                     continue
                 if 'StatLabel' in p.feats or 'StatGoto' in p.feats:
                     ctx.feature('labels_or_gotos')
-                config = rng.choice(('default', 'default', 'keep_all', 'keep_file', 'keep_file'))
+                config = rng.choice(('default', 'default', 'keep_all', 'keep_file', 'keep_file', 'keep_all+keep_file'))
                 names = sorted({p.toks[k][1] for k in p.names})
                 keep = sorted(set([n for n in names if rng.random() < 0.3] +
                                   rng.sample([b'a', b'b', b'ba', b'c', b'print', b'\x80x', b'zz', b'bb', b'e'], rng.randint(0, 5))))
@@ -316,7 +329,7 @@ def gates(m, tier):
     for k in ('keepfile_has_a', 'keepfile_has_b', 'keepfile_has_ba', 'labels_or_gotos', 'big_programs', 'factory_enumeration_done'):
         if f.get(k, 0) < 1:
             missed.append('%s never seen' % k)
-    for c in ('default', 'keep_all', 'keep_file'):
+    for c in ('default', 'keep_all', 'keep_file', 'keep_all+keep_file'):
         if f.get('config:' + c, 0) < 50:
             missed.append('configuration %s used %d times' % (c, f.get('config:' + c, 0)))
     if mon.get('mappings_checked', 0) < 300:
